@@ -497,4 +497,283 @@ theorem compatLoop_eq (E : Engine) (rtl : Bool) (n : Nat) :
             · rw [if_neg h1, hke, ih]
           · rw [if_neg hpos, if_neg hpos, hke, ih]
 
+theorem findAll_eq_spec (E : Engine) (rtl : Bool) (n : Nat) (k : Int) :
+    findAll E rtl n k = findAllSpec rtl k (iterate E rtl n) := by
+  unfold findAll findAllSpec iterate firstMatch
+  by_cases hk : k = 0
+  · simp [hk, takeK_zero]
+  · rw [if_neg hk]
+    have := findAllLoop_eq E rtl n (n + 2) (firstStart rtl n) (-1) none k
+    simp only [prevEndOf] at this
+    rw [this]
+    simp
+
+theorem compatAll_eq_spec (E : Engine) (rtl : Bool) (n : Nat) (k : Int) :
+    compatAll E rtl n k = findAllSpec rtl k (iterate E rtl n) := by
+  unfold compatAll findAllSpec compatForEach iterate
+  by_cases hk : k = 0
+  · simp [hk, takeK_zero]
+  · rw [if_neg hk]
+    have := compatLoop_eq E rtl n (n + 2) (firstMatch E rtl n) none k
+    simp only [prevEndOf] at this
+    rw [this]
+    simp
+
+/-! ### Go's `allMatches` against the same specification (left-to-right, `\G`-free) -/
+
+/-- the hit of the naive left-to-right scan from `pos` -/
+def hitFrom (attempt : Nat → Option (Nat × Nat)) (n pos : Nat) : Option Hit :=
+  (naiveFrom attempt false n pos).map (Hit.ofSpan false)
+
+theorem naiveFrom_beyond (attempt : Nat → Option (Nat × Nat)) (n pos : Nat) (h : n < pos) :
+    naiveFrom attempt false n pos = none := by
+  apply naiveFrom_eq_none
+  intro p hp
+  rw [mem_scanOrder] at hp
+  simp at hp; omega
+
+theorem naiveFrom_ltr_spec (attempt : Nat → Option (Nat × Nat)) (n pos s l : Nat)
+    (hS : AttemptShape false n attempt) (h : naiveFrom attempt false n pos = some (s, l)) :
+    pos ≤ s ∧ s + l ≤ n ∧ naiveFrom attempt false n s = some (s, l) := by
+  obtain ⟨p, hmem, hm⟩ := naiveFrom_eq_some attempt false n pos (s, l) h
+  rw [mem_scanOrder] at hmem
+  simp only [Bool.false_eq_true, if_false] at hmem
+  have hs := hS p s l hmem.2 hm
+  simp only [Bool.false_eq_true, if_false] at hs
+  obtain ⟨rfl, hle⟩ := hs
+  refine ⟨hmem.1, hle, ?_⟩
+  rw [naiveFrom_step attempt false n s hmem.2, hm]
+
+/-- for a `\G`-free left-to-right matcher a scan is the naive scan from `start`, one further after an
+    empty previous match -/
+theorem scanAt_ltr (E : Engine) (n : Nat) (hE : E.Sound false n) (attempt : Nat → Option (Nat × Nat))
+    (hG : ∀ ts, E.attempt ts = attempt) (start : Nat) (prevLen : Int) (hstart : start ≤ n) :
+    scanAt E false n start prevLen = hitFrom attempt n (start + (if prevLen = 0 then 1 else 0)) := by
+  rw [scanAt_eq_naive E false n hE start prevLen hstart, hG]
+  unfold naive hitFrom
+  by_cases hp : prevLen = 0
+  · simp only [hp, if_true, stopPos, Bool.false_eq_true, if_false, bump]
+    by_cases hs : start = n
+    · subst hs
+      rw [naiveFrom_beyond attempt start (start + 1) (by omega)]
+      simp
+    · simp [hs]
+  · simp [hp]
+
+/-- the limit counter of the adapter (`k`, negative = unlimited) against the standard library's
+    (`i < cap`, `cap = len+1` when unlimited) -/
+def CntRel (n cap i pos : Nat) (k : Int) : Prop :=
+  (0 ≤ k ∧ (cap : Int) - (i : Int) = k) ∨ (k < 0 ∧ n + 1 - pos ≤ cap - i)
+
+/-! one step of each loop, as rewriting rules -/
+
+theorem keepNonAdjacent_drop (rtl : Bool) (prev : Option Hit) (m : Hit) (rest : List Hit)
+    (h : m.len = 0 ∧ (m.index : Int) = prevEndOf rtl prev) :
+    keepNonAdjacent rtl prev (m :: rest) = keepNonAdjacent rtl (some m) rest := by
+  rw [keepNonAdjacent, if_pos h]
+
+theorem keepNonAdjacent_keep (rtl : Bool) (prev : Option Hit) (m : Hit) (rest : List Hit)
+    (h : ¬ (m.len = 0 ∧ (m.index : Int) = prevEndOf rtl prev)) :
+    keepNonAdjacent rtl prev (m :: rest) = m :: keepNonAdjacent rtl (some m) rest := by
+  rw [keepNonAdjacent, if_neg h]
+
+theorem stdLoop_stop (ff : Nat → Option (Nat × Nat)) (n cap g pos i : Nat) (pe : Int)
+    (h : ¬ (i < cap ∧ pos ≤ n)) : stdLoop ff n cap g pos i pe = [] := by
+  cases g with
+  | zero => rfl
+  | succ g => rw [stdLoop, if_neg h]
+
+theorem stdLoop_none (ff : Nat → Option (Nat × Nat)) (n cap g pos i : Nat) (pe : Int)
+    (h : ff pos = none) : stdLoop ff n cap g pos i pe = [] := by
+  cases g with
+  | zero => rfl
+  | succ g => rw [stdLoop, h]; simp
+
+theorem stdLoop_empty_adjacent (ff : Nat → Option (Nat × Nat)) (n cap g pos i : Nat) (pe : Int)
+    (hi : i < cap) (hpos : pos ≤ n) (h : ff pos = some (pos, pos)) (hadj : (pos : Int) = pe) :
+    stdLoop ff n cap (g + 1) pos i pe = stdLoop ff n cap g (pos + 1) i (pos : Int) := by
+  have hpos' : (if pos < n then pos + 1 else n + 1) = pos + 1 := by split <;> omega
+  rw [stdLoop, if_pos ⟨hi, hpos⟩, h]
+  simp only [if_true, hpos', hadj]
+
+theorem stdLoop_empty_new (ff : Nat → Option (Nat × Nat)) (n cap g pos i : Nat) (pe : Int)
+    (hi : i < cap) (hpos : pos ≤ n) (h : ff pos = some (pos, pos)) (hadj : (pos : Int) ≠ pe) :
+    stdLoop ff n cap (g + 1) pos i pe = (pos, pos) :: stdLoop ff n cap g (pos + 1) (i + 1) (pos : Int) := by
+  have hpos' : (if pos < n then pos + 1 else n + 1) = pos + 1 := by split <;> omega
+  rw [stdLoop, if_pos ⟨hi, hpos⟩, h]
+  simp only [if_true, hpos', hadj, if_false]
+
+theorem stdLoop_other (ff : Nat → Option (Nat × Nat)) (n cap g pos i s e : Nat) (pe : Int)
+    (hi : i < cap) (hpos : pos ≤ n) (h : ff pos = some (s, e)) (he : e ≠ pos) :
+    stdLoop ff n cap (g + 1) pos i pe = (s, e) :: stdLoop ff n cap g e (i + 1) (e : Int) := by
+  rw [stdLoop, if_pos ⟨hi, hpos⟩, h]
+  simp only [he, if_false]
+
+theorem iterFrom_hit (E : Engine) (n : Nat) (hE : E.Sound false n) (attempt : Nat → Option (Nat × Nat))
+    (hG : ∀ ts, E.attempt ts = attempt) (f pos s l : Nat) (hsl : s + l ≤ n)
+    (hn : naiveFrom attempt false n pos = some (s, l)) :
+    iterFrom E false n (f + 1) (hitFrom attempt n pos) =
+      ⟨s, l, s + l⟩ :: iterFrom E false n f (hitFrom attempt n (s + l + (if l = 0 then 1 else 0))) := by
+  have hnext : nextMatch E false n ⟨s, l, s + l⟩ = hitFrom attempt n (s + l + (if l = 0 then 1 else 0)) := by
+    unfold nextMatch
+    rw [scanAt_ltr E n hE attempt hG (s + l) _ hsl]
+    by_cases hl : l = 0
+    · simp [hl]
+    · simp [hl]
+  simp only [hitFrom, hn, Option.map_some, Hit.ofSpan, scanEnd, Bool.false_eq_true, if_false, iterFrom]
+  rw [hnext]; rfl
+
+theorem prevEndOf_ltr (a b c : Nat) : prevEndOf false (some ⟨a, b, c⟩) = ((a + b : Nat) : Int) := rfl
+
+theorem cntRel_deliver {n cap i pos : Nat} {k : Int} (h : CntRel n cap i pos k) (hi : i < cap) (hpos : pos ≤ n)
+    (pos' : Nat) (hp : pos < pos') : CntRel n cap (i + 1) pos' (if k > 0 then k - 1 else k) := by
+  rcases h with h | h
+  · left; have : k > 0 := by omega
+    simp only [this, if_true]; omega
+  · right; have : ¬ (k > 0) := by omega
+    simp only [this, if_false]; exact ⟨h.1, by omega⟩
+
+theorem cntRel_skip {n cap i pos : Nat} {k : Int} (h : CntRel n cap i pos k) (pos' : Nat) (hp : pos ≤ pos') :
+    CntRel n cap i pos' k := by
+  rcases h with h | h
+  · exact Or.inl h
+  · exact Or.inr ⟨h.1, by omega⟩
+
+/-- The standard library's `allMatches` loop, run on "leftmost match at or after pos" of a
+    left-to-right `\\G`-free matcher, delivers the FindNextMatch sequence minus adjacent empty matches,
+    truncated — the same specification the regexp2 loops meet. (An empty match found beyond `pos` is
+    delivered, then found again at its own position and ignored there; the regexp2 iteration finds it
+    once.) -/
+theorem stdLoop_eq (attempt : Nat → Option (Nat × Nat)) (n : Nat) (hS : AttemptShape false n attempt)
+    (E : Engine) (hE : E.Sound false n) (hG : ∀ ts, E.attempt ts = attempt) (cap : Nat) :
+    ∀ (d pos f g i : Nat) (prev : Option Hit) (k : Int),
+      n + 1 - pos ≤ d → d < f → d < g → prevEndOf false prev ≤ (pos : Int) → CntRel n cap i pos k →
+      stdLoop (findFromOf attempt n) n cap g pos i (prevEndOf false prev) =
+        (takeK k (keepNonAdjacent false prev (iterFrom E false n f (hitFrom attempt n pos)))).map
+          fun m => (m.index, m.index + m.len) := by
+  -- beyond the input both sides are empty
+  have beyond : ∀ (pos f g i : Nat) (prev : Option Hit) (k : Int), n < pos →
+      stdLoop (findFromOf attempt n) n cap g pos i (prevEndOf false prev) =
+        (takeK k (keepNonAdjacent false prev (iterFrom E false n f (hitFrom attempt n pos)))).map
+          fun m => (m.index, m.index + m.len) := by
+    intro pos f g i prev k hpos
+    rw [stdLoop_stop _ _ _ _ _ _ _ (by omega)]
+    simp [hitFrom, naiveFrom_beyond attempt n pos hpos, iterFrom_none, keepNonAdjacent, takeK_nil]
+  intro d
+  induction d with
+  | zero =>
+    intro pos f g i prev k hd _ _ _ _
+    exact beyond pos f g i prev k (by omega)
+  | succ d ih =>
+    intro pos f g i prev k hd hf hg hpe hcnt
+    by_cases hpos : pos ≤ n
+    case neg => exact beyond pos f g i prev k (by omega)
+    obtain ⟨g', rfl⟩ : ∃ g', g = g' + 1 := ⟨g - 1, by omega⟩
+    obtain ⟨f', rfl⟩ : ∃ f', f = f' + 1 := ⟨f - 1, by omega⟩
+    by_cases hi : i < cap
+    case neg =>
+      have hk : k = 0 := by
+        rcases hcnt with h | h
+        · omega
+        · omega
+      rw [stdLoop_stop _ _ _ _ _ _ _ (fun h => hi h.1), hk, takeK_zero]; rfl
+    have hk : k ≠ 0 := by
+      rcases hcnt with h | h
+      · omega
+      · omega
+    cases hn : naiveFrom attempt false n pos with
+    | none =>
+      rw [stdLoop_none _ _ _ _ _ _ _ (by simp [findFromOf, hn])]
+      simp [hitFrom, hn, iterFrom_none, keepNonAdjacent, takeK_nil]
+    | some m =>
+      obtain ⟨s, l⟩ := m
+      obtain ⟨hps, hsl, hns⟩ := naiveFrom_ltr_spec attempt n pos s l hS hn
+      have hff : findFromOf attempt n pos = some (s, s + l) := by simp [findFromOf, hn]
+      rw [iterFrom_hit E n hE attempt hG f' pos s l hsl hn]
+      by_cases he : s + l = pos
+      · -- an empty match at pos
+        have hl : l = 0 := by omega
+        subst hl
+        have hs : s = pos := by omega
+        subst hs
+        simp only [if_true, Nat.add_zero] at hff ⊢
+        by_cases hadj : ((s : Nat) : Int) = prevEndOf false prev
+        · -- right after the previous match: ignored by both
+          rw [stdLoop_empty_adjacent _ _ _ _ _ _ _ hi hpos hff hadj,
+            keepNonAdjacent_drop false prev ⟨s, 0, s⟩ _ ⟨rfl, hadj⟩]
+          have h1 := ih (s + 1) f' g' i (some ⟨s, 0, s⟩) k (by omega) (by omega) (by omega)
+            (by rw [prevEndOf_ltr]; omega) (cntRel_skip hcnt _ (by omega))
+          rw [prevEndOf_ltr] at h1
+          exact h1
+        · rw [stdLoop_empty_new _ _ _ _ _ _ _ hi hpos hff hadj,
+            keepNonAdjacent_keep false prev ⟨s, 0, s⟩ _ (fun h => hadj h.2), takeK_cons _ _ _ hk]
+          have h1 := ih (s + 1) f' g' (i + 1) (some ⟨s, 0, s⟩) (if k > 0 then k - 1 else k) (by omega) (by omega) (by omega)
+            (by rw [prevEndOf_ltr]; omega) (cntRel_deliver hcnt hi hpos _ (by omega))
+          rw [prevEndOf_ltr] at h1
+          simp only [List.map_cons, Nat.add_zero] at h1 ⊢
+          rw [h1]
+      · -- a match that ends after pos (an empty one then lies after pos)
+        have hkeep : ¬ ((⟨s, l, s + l⟩ : Hit).len = 0 ∧ (((⟨s, l, s + l⟩ : Hit).index : Nat) : Int) = prevEndOf false prev) := by
+          intro h
+          have h1 : l = 0 := h.1
+          have h2 : ((s : Nat) : Int) = prevEndOf false prev := h.2
+          omega
+        rw [stdLoop_other _ _ _ _ _ _ _ _ _ hi hpos hff he,
+          keepNonAdjacent_keep false prev ⟨s, l, s + l⟩ _ hkeep, takeK_cons _ _ _ hk]
+        simp only [List.map_cons]
+        by_cases hl : l = 0
+        · -- empty match at s > pos: the standard library finds it again at s and ignores it there
+          subst hl
+          simp only [if_true, Nat.add_zero] at hns ⊢
+          have h1 := ih s (f' + 1) g' (i + 1) (some ⟨s, 0, s⟩) (if k > 0 then k - 1 else k) (by omega) (by omega) (by omega)
+            (by rw [prevEndOf_ltr]; omega) (cntRel_deliver hcnt hi hpos _ (by omega))
+          rw [iterFrom_hit E n hE attempt hG f' s s 0 (by omega) hns,
+            keepNonAdjacent_drop false (some ⟨s, 0, s⟩) ⟨s, 0, s + 0⟩ _ ⟨rfl, by simp [prevEndOf, keptEnd]⟩] at h1
+          rw [prevEndOf_ltr] at h1
+          simp only [if_true, Nat.add_zero] at h1
+          rw [h1]
+        · simp only [hl, if_false, Nat.add_zero]
+          have h1 := ih (s + l) f' g' (i + 1) (some ⟨s, l, s + l⟩) (if k > 0 then k - 1 else k) (by omega) (by omega) (by omega)
+            (by rw [prevEndOf_ltr]; omega) (cntRel_deliver hcnt hi hpos _ (by omega))
+          rw [prevEndOf_ltr] at h1
+          rw [h1]
+
+/-! ### concrete instances used by the `example`s of the property files: the tables of `a*` on "baa" -/
+
+/-- left-to-right `a*` on "baa": attempt at 0 ↦ empty, at 1 ↦ "aa", at 2 ↦ "a", at 3 ↦ empty -/
+def exL : Nat → Option (Nat × Nat)
+  | 0 => some (0, 0) | 1 => some (1, 2) | 2 => some (2, 1) | 3 => some (3, 0) | _ => none
+
+/-- right-to-left `a*` on "baa", indexed by the position the attempt starts at (the match's end) -/
+def exR : Nat → Option (Nat × Nat)
+  | 3 => some (1, 2) | 2 => some (1, 1) | 1 => some (1, 0) | 0 => some (0, 0) | _ => none
+
+def exEngine (att : Nat → Option (Nat × Nat)) : Engine :=
+  { finder := fun _ pos => (true, pos), after := fun _ q => q, attempt := fun _ => att, minLen := 0 }
+
+theorem exEngine_sound (rtl : Bool) (n : Nat) (att : Nat → Option (Nat × Nat)) (h : AttemptShape rtl n att) :
+    (exEngine att).Sound rtl n where
+  shape := fun _ _ => h
+  finder := by
+    intro ts _ pos hpos
+    cases rtl
+    · exact ⟨Nat.le_refl _, hpos, fun _ p h1 h2 => absurd h2 (by simp [exEngine]; omega), fun h => by simp [exEngine] at h⟩
+    · exact ⟨Nat.le_refl _, fun _ p h1 h2 => absurd h1 (by simp [exEngine]; omega), fun h => by simp [exEngine] at h⟩
+  after := by
+    intro ts _ q hq _
+    cases rtl
+    · exact ⟨Nat.le_refl _, hq, fun p h1 h2 => absurd h2 (by simp [exEngine]; omega)⟩
+    · exact ⟨Nat.le_refl _, fun p h1 h2 => absurd h1 (by simp [exEngine]; omega)⟩
+  minLen := by intro ts _ p i l _ _; simp [exEngine]
+
+theorem exL_shape : AttemptShape false 3 exL := by
+  intro p i l hp h
+  match p, hp, h with
+  | 0, _, h | 1, _, h | 2, _, h | 3, _, h => simp [exL] at h; simp; omega
+
+theorem exR_shape : AttemptShape true 3 exR := by
+  intro p i l hp h
+  match p, hp, h with
+  | 0, _, h | 1, _, h | 2, _, h | 3, _, h => simp [exR] at h; simp; omega
+
 end RegexVerif.Lemmas.Scan
